@@ -297,11 +297,15 @@ class Impl:
                 args.append("-ro")
             for i in op.get("i", []):
                 args += ["-i", i]
+            if op.get("ii"):
+                args += ["-ii", self._ii(op["ii"])]
             r = rt.run("verify", args, now, cwd)
         elif k == "diff":
             args = [at]
             for i in op.get("i", []):
                 args += ["-i", i]
+            if op.get("ii"):
+                args += ["-ii", self._ii(op["ii"])]
             r = rt.run("diff", args, now, cwd)
         elif k == "info":
             r = rt.run("info", [at], now, cwd)
@@ -373,6 +377,7 @@ class Impl:
             if pls:
                 self.last_pl = sorted(pls)[-1]
             obs["flatten_dest"] = {os.path.relpath(os.path.join(dp, f), op["_dest"]): open(os.path.join(dp, f), "rb").read() for dp, _, fs in os.walk(op["_dest"]) for f in fs}
+            obs["flatten_dest_dirs"] = sorted(os.path.relpath(os.path.join(dp, d), op["_dest"]) for dp, ds, _ in os.walk(op["_dest"]) for d in ds)
             obs["written"] = [{"hist": ".", "gen": rt.read_manifest(p), "file": os.path.basename(p)} for p in sorted(pls)]
         return obs
 
